@@ -1370,6 +1370,7 @@ func loadFunc(ctx *blockCtx, recv *types.Var, name string, d *ast.FuncDecl, genB
 	}
 	var pkg = ctx.pkg
 	var sigBase *types.Signature
+	var ftyp = d.Type
 	if d.Shadow {
 		if recv != nil && (name == "Main" || name == "MainEntry") {
 			if base := ctx.baseClass; base != nil {
@@ -1390,13 +1391,17 @@ func loadFunc(ctx *blockCtx, recv *types.Var, name string, d *ast.FuncDecl, genB
 				arg1 := d.Type.Params.List[0]
 				typ := toType(ctx, arg1.Type)
 				recv = types.NewParam(arg1.Pos(), at, arg1.Names[0].Name, typ)
-				d.Type.Params.List = nil
+				// the operand becomes the receiver; leave the declaration itself
+				// untouched so that it can be compiled again
+				t := *d.Type
+				t.Params = &ast.FieldList{Opening: t.Params.Opening, Closing: t.Params.Closing}
+				ftyp = &t
 			}
 		}
 	}
 	sig := sigBase
 	if sig == nil {
-		sig = toFuncType(ctx, d.Type, recv, d)
+		sig = toFuncType(ctx, ftyp, recv, d)
 	}
 	fn, err := pkg.NewFuncWith(d.Name.Pos(), name, sig, func() token.Pos {
 		return d.Recv.List[0].Type.Pos()
